@@ -293,7 +293,9 @@ def cases(tier, seed):
             tg = ([("var", "A")] if with_empty else []) + [("var", "B"), ("var", "C")]
             yield {"kind": "callsite", "what": "READ-numeric-spelling", "prog": [(10, [("data", items)]), (20, [("read", tg)])]}
     # hexadecimal items, with the blanks the tool's grammar allows inside them, on both READ paths
-    for hv, sp in ((255, "FF"), (255, " FF"), (31, "  1F"), (0, " 0"), (65535, " FFFF"), (4096, "1000"), (10, " A")):
+    for hv, sp in ((255, "FF"), (255, " FF"), (31, "  1F"), (0, " 0"), (65535, " FFFF"), (4096, "1000"), (10, " A"),
+                   # (the grammar takes up to six hexadecimal digits)
+                   (0x8000, "8000"), (0x10000, "10000"), (0x12345, "12345"), (0x70000, "70000"), (0xFFFFFF, "FFFFFF"), (0x0FFFF, "0FFFF")):
         for with_empty in (True, False):
             items = ([("u", "")] if with_empty else []) + [("h", hv, sp), ("n", 3.0, ["3"])]
             tg = ([("var", "A")] if with_empty else []) + [("var", "B"), ("var", "C")]
